@@ -10,8 +10,6 @@ from six import iteritems
 
 from collections import OrderedDict
 
-from math import log
-
 
 class BitField(object):
     """Defines a hierarchical bit field and the values of those fields.
@@ -927,7 +925,7 @@ class BitField(object):
         length = field.length
         if length is None:
             # Assign lengths based on values
-            length = int(log(field.max_value, 2)) + 1
+            length = int(field.max_value).bit_length()
 
         start_at = field.start_at
         if start_at is None:
